@@ -1,6 +1,6 @@
 """Native replay of counterexamples.  A finding may carry `replay`:
    {'kind': 'lay', 'source': <program text>, 'expect_stdout': ..., 'bad_stdout_re': ..., 'bad_exit': [...]} — run through the
-   real `laythe` binary built from /repo (debug profile);
+   real `laythe` binary built from /repo (debug profile); with 'valgrind': True under memcheck (an invalid access reproduces the finding);
    {'kind': 'none'} — kernel-level counterexample without a native route (reported with its model)."""
 import os
 import re
@@ -25,7 +25,7 @@ def build_laythe(profile='debug'):
     return os.path.join(env['CARGO_TARGET_DIR'], profile, 'laythe')
 
 
-def run_lay(source, files=None, timeout=20, profile='debug', stdin=None):
+def run_lay(source, files=None, timeout=20, profile='debug', stdin=None, valgrind=False):
     exe = build_laythe(profile)
     if exe is None:
         return None
@@ -37,7 +37,12 @@ def run_lay(source, files=None, timeout=20, profile='debug', stdin=None):
         main = os.path.join(d, 'main.lay')
         open(main, 'w').write(source)
         try:
-            r = subprocess.run([exe, main], cwd=d, stdout=subprocess.PIPE, stderr=subprocess.PIPE, timeout=timeout,
+            cmd = [exe, main]
+            if valgrind:
+                # memory errors of the real binary: exit status 97 when memcheck saw an invalid access
+                cmd = ['valgrind', '-q', '--error-exitcode=97'] + cmd
+                timeout = max(timeout, 300)
+            r = subprocess.run(cmd, cwd=d, stdout=subprocess.PIPE, stderr=subprocess.PIPE, timeout=timeout,
                                input=stdin)
             return dict(exit=r.returncode, stdout=r.stdout.decode(errors='replace'), stderr=r.stderr.decode(errors='replace'))
         except subprocess.TimeoutExpired:
@@ -49,10 +54,12 @@ def try_replay(rec):
     if not rp or rp.get('kind') == 'none':
         return dict(status='no_native_route')
     if rp['kind'] == 'lay':
-        out = run_lay(rp['source'], rp.get('files'))
+        out = run_lay(rp['source'], rp.get('files'), valgrind=bool(rp.get('valgrind')))
         if out is None:
             return dict(status='build_failed')
         bad = False
+        if rp.get('valgrind') and out['exit'] == 97:
+            bad = True
         if 'expect_stdout' in rp and out['stdout'].strip() != rp['expect_stdout'].strip():
             bad = True
         if 'bad_re' in rp and re.search(rp['bad_re'], out['stdout'] + out['stderr']):
